@@ -141,10 +141,10 @@ class Douglas(DiscriminativeModel):
         else:
             if len(self.feature_mask) != X.shape[1]:
                 raise ValueError("The boolean feature mask must have as much entries as the number of features")
+            if not np.any(self.feature_mask):
+                raise ValueError("The boolean feature mask must select at least one feature")
             self.cut_points_list_ = [(i, random_state.normal(size=self.n_cuts, )) for i in range(X.shape[1])
                                      if self.feature_mask[i]]
-            if len(self.cut_points_list_) == 0:
-                raise ValueError("The boolean feature mask must select at least one feature")
             num_leaf = int((self.n_cuts + 1) ** len(self.cut_points_list_))
 
         if self.verbose:
